@@ -3,7 +3,7 @@ model phase : structural laws of the 3 x 929 pinned patterns, start/stop, GF(929
               encoder model (transcription of highlevelEncode / encodeText / encodeBinary / encodeNumeric) || compaction automaton for all strings over
               representative bytes (MC_PDFText), incl. the negative design (pad in punctuation sub-mode not tracked) that must violate RoundTrip
 trace valid.: every image is read by the reference reader of PDF417.tla (TracePDF)"""
-import vlib, onedim, gen
+import vlib, onedim, gen, encconf
 
 UP, LO, DG = "ABCDEFGHIJKLMNOPQRSTUVWXYZ", "abcdefghijklmnopqrstuvwxyz", "0123456789"
 MIXED_ONLY = "&#+%=^"
@@ -108,6 +108,11 @@ def run(tier):
                    dict(module="MC_PDFText.tla", cfg="MC_PDFText_nofix.cfg", workers=2, timeout=3000, heap="4g", expect_violation="RoundTrip")])
     drive = vlib.build_harness(chk.work)
     jobs = pdf_jobs(chk.rng, quick)
+    # encoder-model conformance: what the real high-level encoder emits for every string of MC_PDFText's state space, compared with
+    # PDFTextEnc by TraceEnc; strings where the code left the model are encoded through the public API and read back like all others
+    wrong, drift = encconf.conformance(chk, "pdf", quick)
+    for k, c in enumerate(wrong + drift):
+        jobs.append(gen.enc("pdf", list(c), (k % 3,)))
     evs, extras = onedim.judge(chk, drive, jobs, "TracePDF", "TracePDF.cfg", 14 if quick else 16, wanted, heap="4g", timeout=6000, describe=describe)
     ok = [e for e in evs if e["res"]["kind"] == "ok"]
     chk.cov["symbols_decoded"] = len(ok)
